@@ -272,15 +272,19 @@ ACCEPT:
 			LoggerFactory: r.api.settingEngine.LoggerFactory,
 		}, dataChannels...)
 		if err != nil {
-			if !errors.Is(err, io.EOF) {
-				r.log.Errorf("Failed to accept data channel: %v", err)
-				r.onError(err)
-				r.onClose(err)
-			} else {
+			if errors.Is(err, io.EOF) {
 				r.onClose(nil)
+
+				return
 			}
 
-			return
+			// Only this stream failed to open (for example a malformed or oversized
+			// DATA_CHANNEL_OPEN, or data on a stream that has no channel yet).
+			// The association is still usable, keep accepting other channels.
+			r.log.Errorf("Failed to accept data channel: %v", err)
+			r.onError(err)
+
+			continue ACCEPT
 		}
 		for _, ch := range dataChannels {
 			if ch.StreamIdentifier() == dc.StreamIdentifier() {
